@@ -9,6 +9,7 @@ import (
 	"io"
 	mrand "math/rand"
 	"net"
+	"os"
 	"regexp"
 	"strconv"
 	"strings"
@@ -206,6 +207,8 @@ func main() {
 	ev.MainIsolated("C14", "exploration", 40*time.Minute, func(r *ev.Run) {
 		r.Rule("seeded (original command, LOGNAME, SSH_CONNECTION, argv) tuples: JSON attribute objects, other JSON values, legacy texts (with and without a version), odd version strings, smuggling attempts, empty, bytes; LOGNAME empty/hostile; connection strings empty, leading space, IPv6, zone ids, tabs, malformed; argv of 0..8 arguments with embedded spaces. distinct_nontrivial = distinct inputs for which NewReqParam SUCCEEDED and every clause of the oracle was evaluated Plus 900 requests in a row with the process entropy source (crypto/rand.Reader) down during requests 250..399: every id handed out is well-formed and never repeats an earlier one.")
 		r.Assume("reference decoders for 'what the client declared': encoding/json into a mirror struct, reference legacy tokenizer", "40-bit ids: at most one duplicate per 5000-call window, never two equal consecutive ids")
+		// the RA's own command line is not the request's: make it one that would parse as a forced command
+		os.Args = []string{"/usr/bin/gensign", "NSOK", "Regular"}
 		ring := ev.NewRing("NewReqParam", r.Seed, 43)
 		n := r.Pick(20000, 1000000)
 		var lastID string
